@@ -119,11 +119,10 @@ def call_extract(osy, ds, region):
         rv = region["R_cm"] / scale_dims(osy.units(ru))[0]
         radius = osy.Array(values=float(rv), unit=ru) if region["as_array"] else float(rv) * osy.units(ru)
         return attempt(lambda: osy.extract_sphere(ds, radius=radius, origin=origin))
-    su = region["size_unit"]
-    f = scale_dims(osy.units(su))[0]
-    sz = [2 * h / f for h in region["half_cm"]]
-    mk = (lambda v: osy.Array(values=float(v), unit=su)) if region["as_array"] else (lambda v: float(v) * osy.units(su))
-    return attempt(lambda: osy.extract_box(ds, dx=mk(sz[0]), dy=mk(sz[1]), dz=mk(sz[2]), origin=origin))
+    sus = region.get("size_units") or [region["size_unit"]] * 3      # dx, dy, dz may come in different length units
+    sz = [2 * h / scale_dims(osy.units(u))[0] for h, u in zip(region["half_cm"], sus)]
+    mk = (lambda v, u: osy.Array(values=float(v), unit=u)) if region["as_array"] else (lambda v, u: float(v) * osy.units(u))
+    return attempt(lambda: osy.extract_box(ds, dx=mk(sz[0], sus[0]), dy=mk(sz[1], sus[1]), dz=mk(sz[2], sus[2]), origin=origin))
 
 
 def judge(res, osy, ds, info, region, label, before, exact=False):
@@ -234,6 +233,8 @@ def draw_region(osy, rng, info, ndim, kind):
         reg["R_cm"] = float(size)
     else:
         reg["half_cm"] = np.asarray([size * float(rng.uniform(0.5, 1.5)) for _ in range(3)])
+        if rng.random() < 0.5:
+            reg["size_units"] = [str(rng.choice(LU)) for _ in range(3)]
     return reg
 
 
